@@ -50,7 +50,8 @@ MANIFEST = dict(
               "sibling-branch differencing on loop-carried state + "
               "co-indexing rule",
 )
-FLOORS = {"C11.1": 4, "C11.2": 8, "C11.3": 4, "C11.4": 12, "C11.5": 4}
+FLOORS = {"C11.1": 4, "C11.2": 8, "C11.3": 4, "C11.4": 12, "C11.5": 4,
+          "C11.6": 4, "C11.7": 1}
 
 PATH = "evo.core.trajectory.PosePath3D"
 TRAJ = "evo.core.trajectory.PoseTrajectory3D"
@@ -67,13 +68,101 @@ def _cmp_set(live: T):
     return {(a, r, b) for (a, r, b) in comparisons(live)}
 
 
+def accumulated_distances_rule(ctx, rule: str):
+    """geometry.accumulated_distances(x)[k] = sum_{i<k} |x_i - x_{i+1}|, as
+    floats: the travelled path length used by the motion filter, the distance
+    splits and the path-length pair selection. Recognised forms: [0] joined
+    with the cumulative sum of the consecutive-step norms, or a float array
+    of zeros whose tail [1:] receives that cumulative sum. A result array
+    typed after the *input* (dtype=x.dtype) truncates the distances of
+    integer-valued positions."""
+    prog = ctx.prog
+    f = prog.func("evo.core.geometry.accumulated_distances")
+    ctx.analysed_fn(f.qualname)
+    x = tm.param(f.params[0])
+    r = Interp(prog).run(f)
+    ret = r.ret
+    S1 = T("slice", const(1), tm.NONE, tm.NONE)
+    SM1 = T("slice", tm.NONE, const(-1), tm.NONE)
+
+    def steps_cumsum(t: T):
+        if not is_call_to(t, "numpy.cumsum") or not t.args[1]:
+            return None
+        nrm = t.args[1][0]
+        if not is_call_to(nrm, "numpy.linalg.norm") or not nrm.args[1]:
+            return None
+        ax = dict(nrm.args[2]).get("axis")
+        d = nrm.args[1][0]
+        consecutive = False
+        if d.op == "binop" and d.args[0] == "Sub":
+            consecutive = {d.args[1], d.args[2]} == {tm.sub(x, SM1),
+                                                     tm.sub(x, S1)}
+        elif is_call_to(d, "numpy.diff") and d.args[1] and \
+                d.args[1][0] is x:
+            consecutive = tm.is_const(dict(d.args[2]).get("axis",
+                                                          const(-1)), 0)
+        return consecutive and ax is not None and tm.is_const(ax) and \
+            ax.args[1] in (1, -1)
+    verdict = None
+    why = fmt(ret)[:140]
+    if is_call_to(ret, "numpy.concatenate", "numpy.hstack", "numpy.append",
+                  "numpy.r_") and ret.args[1]:
+        parts = ret.args[1][0].args if ret.args[1][0].op in (
+            "tuple", "list") else tuple(ret.args[1])
+        if len(parts) == 2:
+            z = parts[0]
+            zero = (is_call_to(z, "numpy.array", "numpy.zeros") and z.args[1]
+                    and (fmt(z.args[1][0]) in ("[0]", "[0.0]", "1", "(0,)",
+                                               "[0.]"))) or \
+                fmt(z) in ("[0]", "[0.0]")
+            sc = steps_cumsum(parts[1])
+            if sc is not None:
+                verdict = bool(zero and sc)
+    elif ret.op == "upd" and is_call_to(ret.args[0], "numpy.zeros",
+                                        "numpy.zeros_like"):
+        base, idx, val = ret.args
+        dt = dict(base.args[2]).get("dtype")
+        sc = steps_cumsum(val)
+        if sc is not None and idx is S1:
+            float_dt = dt is None and is_call_to(base, "numpy.zeros") or (
+                dt is not None and (
+                    dt is tm.glob("builtins.float") or
+                    (dt.op == "global" and dt.args[0] in (
+                        "numpy.float64", "numpy.double", "numpy.float_"))))
+            if float_dt:
+                verdict = bool(sc)
+            elif dt is not None and any(y is x for y in dt.walk()) or \
+                    is_call_to(base, "numpy.zeros_like"):
+                verdict = False
+                why = (f"the result array is typed after the input "
+                       f"({fmt(dt) if dt is not None else 'zeros_like'}): "
+                       f"for integer-valued positions every accumulated "
+                       f"distance is truncated to an integer")
+    if verdict is None:
+        ctx.undecidable(rule, f, f"accumulated_distances: form not "
+                        f"recognised: {why}")
+        return
+    ctx.ob(rule, f, verdict,
+           "accumulated_distances: 0 followed by the running sum of the "
+           "consecutive step lengths, as floats" if verdict else
+           f"accumulated_distances deviates: {why}",
+           key=f"{rule}:accumulated-distances")
+
+
 def check(ctx):
     prog = ctx.prog
+    accumulated_distances_rule(ctx, "C11.7")
     _downsample(ctx, prog)
     _motion(ctx, prog)
     _crop(ctx, prog)
     _splits(ctx, prog)
     _merge(ctx, prog)
+    # the splits cut where `distances` / `speeds` / timestamps jump: those
+    # derived quantities must follow from the current poses, i.e. not be
+    # cached across index reductions (instances of C08.7)
+    from ..core import import_rules
+    n = import_rules(ctx, "c08", ("C08.7",), "C11.6")
+    ctx.require(n >= 4, "C11.6: derived-quantity instances not found")
 
 
 # ---------------------------------------------------------------- C11.1
